@@ -56,6 +56,10 @@ type raceRun struct {
 	nonce   int
 }
 
+// raceHung is set when wallet calls block each other for good; main then writes the report and
+// exits without trying to stop the wallet.
+var raceHung bool
+
 var gateMu sync.Mutex
 var gateFn func(name string)
 
@@ -343,7 +347,11 @@ func runRace(seed int, root string, grace time.Duration, stressRounds int, trace
 		rep.AddError("setup: %v", err)
 		return
 	}
-	defer e.close()
+	defer func() {
+		if !raceHung {
+			e.close()
+		}
+	}()
 	defer setGate(nil)
 	if err := e.start(); err != nil {
 		rep.AddError("start: %v", err)
@@ -676,7 +684,17 @@ func runRace(seed int, root string, grace time.Duration, stressRounds int, trace
 			}(k)
 		}
 		close(start)
-		wg.Wait()
+		finished := make(chan struct{})
+		go func() { wg.Wait(); close(finished) }()
+		select {
+		case <-finished:
+		case <-time.After(30 * time.Second):
+			// not a verdict about addresses: the calls block each other (e.g. a lock-order inversion)
+			rep.AddError("stress round %d: issuing calls did not return within 30 s", round)
+			rep.Count(len(pairs)+round, 0, nchecks)
+			raceHung = true // the wallet cannot be shut down cleanly any more
+			return
+		}
 		verdict(fmt.Sprintf("stress"), acct, ext0, int0, results, map[string]interface{}{"stress_round": round, "account": acct})
 		rep.Inc("stress_rounds", 1)
 		rep.Nontriv(fmt.Sprintf("stress|%d", round))
